@@ -2,7 +2,7 @@
    on the histories the harness printed (field "m" of its "file" and "case" lines).
 
    stdin, one per line:
-     file <id> <channels> <bps> <total|-> <table|-|e> <frames>
+     file <id> <channels> <bps> <total|-> <table|-|e> <frames>      ('!' before a frame: it fails its CRC-16)
      case <file id> <reader> <seekable 0|1> <profile d|r> <ops>
    stdout: for every case line one line of ';'-separated observations, in the harness' notation
      d:<hex | ints | chans>  u  i:<int>  none  p:<pos>  e:<class>  panic
@@ -57,16 +57,21 @@ let parse_file toks =
                    | _ -> failwith "bad seek point")
                (split ',' table))
       in
+      let chans fr = List.map (fun c -> List.map z_of_string (split ',' c)) (split '/' fr) in
       let slots =
         List.map
-          (fun fr -> SFrame (List.map (fun c -> List.map z_of_string (split ',' c)) (split '/' fr)))
+          (fun fr ->
+            if String.length fr > 0 && fr.[0] = '!' then SBad (chans (String.sub fr 1 (String.length fr - 1)))
+            else SFrame (chans fr))
           (split '|' frames)
       in
       Hashtbl.replace files id { channels = n_of_string ch; bps = n_of_string bps; total; table; slots }
   | _ -> failwith "bad file line"
 
 (* ---- observations *)
-let err_name = function EEof -> "Eof" | EIo -> "Io" | EOther -> "InvalidSeek" | ECrc16 -> "Crc16" | _ -> "Other"
+let err_name = function
+  | EEof -> "Eof" | EIo -> "Io" | EOther -> "InvalidSeek" | ECrc16 -> "Crc16" | EShortBlock -> "ShortBlock"
+  | ETooManySamples -> "TooManySamples" | _ -> "Other"
 let show_ints l = String.concat "," (List.map string_of_z l)
 let show_out = function
   | OBytes b -> "d:" ^ String.concat "" (List.map (fun x -> Printf.sprintf "%02x" (int_of_n x)) b)
